@@ -51,13 +51,14 @@ def hap_segments(pattern):
 
 
 class Layout:
-    def __init__(self, ref_lens, pattern, scale=1, second_ref=None, name=None, reversed_ids=False):
+    def __init__(self, ref_lens, pattern, scale=1, second_ref=None, name=None, reversed_ids=False, second_name="chr2"):
         self.reversed_ids = reversed_ids
+        self.second_name = second_name
         self.ref_lens = tuple(ref_lens)
         self.pattern = pattern
         self.scale = scale
         self.second_ref = second_ref
-        self.name = name or f"ref{'.'.join(map(str, ref_lens))}|{pattern}|x{scale}" + (f"|chr2:{'.'.join(map(str, second_ref))}" if second_ref else "")
+        self.name = name or f"ref{'.'.join(map(str, ref_lens))}|{pattern}|x{scale}" + (f"|{second_name}:{'.'.join(map(str, second_ref))}" if second_ref else "")
         self.segs = []  # (id, SN, SO, LN, SR)
         so = 0
         i = 0
@@ -74,7 +75,7 @@ class Layout:
             so = 0
             for ln in second_ref:
                 i += 1
-                self.segs.append((f"s{i}", "chr2", so * scale, ln * scale, 0))
+                self.segs.append((f"s{i}", second_name, so * scale, ln * scale, 0))
                 so += ln
 
     def ids(self):
@@ -164,9 +165,11 @@ def walk_record(ordinal, steps, s, e, total, tags=True, cg=True):
     opt = []
     if tags:
         opt += ["tp:A:P", "NM:i:0"]
-    if cg:
+    if cg and ordinal % 11 != 5:  # one record in eleven has no CIGAR field at all (minigraph without -c)
         # the CIGAR field sits last, in the middle or first, by record ordinal
         opt.insert((len(opt), 1, 0)[ordinal % 3] if tags else 0, "cg:Z:" + cig)
+    if tags and ordinal % 7 == 2:
+        opt.insert(ordinal % (len(opt) + 1), "bc:Z:")  # an optional field with an empty value
     if tags and ordinal % 7 == 4:
         opt.insert(ordinal % (len(opt) + 1), "rg:Z:sample A lane 2")  # a Z value with blanks
     # read names as sequencers write them: some start with '@' or '#', some carry '/1'
